@@ -40,6 +40,23 @@ class CommuteUnit(Unit):
             if s in ("linadapt", "expadapt") and not adaptive_windows_exact(c)[2]:
                 continue
             cases.append(c)
+        # a shift that moves an interior (or the last) sample to exactly 0.0 — every run, every non-adaptive strategy: an abscissa of
+        # 0.0 is an abscissa like any other (it is falsy in Python)
+        for s in ("pc", "linfixed", "expfixed"):
+            for _ in range(3):
+                m = rng.choice([4, 5, 6])
+                c = base.mk(rng, s, m=m)
+                c["x"] = [float(v) for v in sorted(rng.sample(range(1, 30), m))]
+                c["y"] = [float(rng.randint(-8, 8)) for _ in range(m)]
+                if c.get("a") is not None and c["a"] > c["n"]:
+                    c["a"] = int(c["n"])
+                if c.get("alpha") is not None and c["alpha"] > 1:
+                    c["alpha"] = 1.0
+                c["map"] = ["shift_x", -c["x"][rng.randint(1, m - 1)]]
+                c["rt"] = rng.choice(["trapezoid", "rectangle"])
+                c["rr"] = rng.choice(["rectangle", "trapezoid"])
+                c["append"] = rng.random() < 0.5
+                cases.append(c)
         return cases
 
     def pipeline(self, c, first):
